@@ -463,9 +463,6 @@ harnesses! {
     c10_alias_rr { prop: C10, feat: "c10", tier: quick, mode: leaf, unwind: 5, caps: "drop=1" } => |s| c10::bind_alias(s, 0, 2, 0);
     c10_alias_r1 { prop: C10, feat: "c10", tier: quick, mode: leaf, unwind: 5, caps: "drop=1" } => |s| c10::bind_alias(s, 22, 24, 3);
     c10_alias_ri { prop: C10, feat: "c10", tier: quick, mode: leaf, unwind: 5, caps: "drop=1" } => |s| c10::bind_alias(s, 21, 22, 2);
-    c10_alias_rr_all { prop: C10, feat: "c10", tier: thorough, mode: leaf, unwind: 5, caps: "drop=1" } => |s| c10::bind_alias(s, 2, 12, 0);
-    c10_alias_r1_all { prop: C10, feat: "c10", tier: thorough, mode: leaf, unwind: 5, caps: "drop=1" } => |s| c10::bind_alias(s, 24, 37, 3);
-    c10_alias_ri_all { prop: C10, feat: "c10", tier: thorough, mode: leaf, unwind: 5, caps: "drop=1" } => |s| c10::bind_alias(s, 14, 21, 2);
     // ---- C12: capacity comparisons and reported figures
     c12_capacity { prop: C12, feat: "c12", tier: quick, mode: cap, unwind: 4, caps: "run=1,clone=1,drop=1" } => |s| c12::capacity(s);
     // ---- C13: device gate
@@ -580,8 +577,6 @@ harnesses! {
     c02_l2_dq { prop: C02, feat: "c02", tier: thorough, mode: leaf, unwind: 18, caps: "drop=1" } => |s| c06::data_w(s, 8, 0);
     // (pass-level step harnesses: src/step.rs is kept for the record, but its harnesses are not
     //  registered - the smallest one did not leave symbolic execution in 60 min, DESIGN.md 4/C02)
-    c07_hex_4k { prop: C07, feat: "c07", tier: thorough, mode: hex, unwind: 262, caps: "" } => |s| c07::hex_big(s, 4113);
-    c07_hex_64k { prop: C07, feat: "c07", tier: thorough, mode: hex, unwind: 4104, caps: "" } => |s| c07::hex_big(s, 65568);
     c05_bin_mul_edge { prop: C05, feat: "c05", tier: quick, mode: full, unwind: 3, caps: "run=2,clone=1,drop=2" } => |s| c05::ev_bin(s, 2, 3, 8);
     c05_bin_div_edge { prop: C05, feat: "c05", tier: quick, mode: full, unwind: 3, caps: "run=2,clone=1,drop=2" } => |s| c05::ev_bin(s, 3, 4, 8);
     c05_bin_rem_edge { prop: C05, feat: "c05", tier: quick, mode: full, unwind: 3, caps: "run=2,clone=1,drop=2" } => |s| c05::ev_bin(s, 4, 5, 8);
@@ -597,4 +592,13 @@ harnesses! {
     c05_bin_unbound { prop: C05, feat: "c05", tier: quick, mode: full, unwind: 3, caps: "run=2,clone=1,drop=2" } => |s| c05::ev_bin_unbound(s);
     // (segment skeletons of step.rs - build_pass_1/2 on segments without items - are not registered either:
     //  the lengths of vectors of structs are not folded, so the item loop body is still explored on garbage)
+    c10_alias_rr_all0 { prop: C10, feat: "c10", tier: thorough, mode: leaf, unwind: 5, caps: "drop=1" } => |s| c10::bind_alias(s, 2, 7, 0);
+    c10_alias_rr_all1 { prop: C10, feat: "c10", tier: thorough, mode: leaf, unwind: 5, caps: "drop=1" } => |s| c10::bind_alias(s, 7, 12, 0);
+    c10_alias_r1_all0 { prop: C10, feat: "c10", tier: thorough, mode: leaf, unwind: 5, caps: "drop=1" } => |s| c10::bind_alias(s, 24, 29, 3);
+    c10_alias_r1_all1 { prop: C10, feat: "c10", tier: thorough, mode: leaf, unwind: 5, caps: "drop=1" } => |s| c10::bind_alias(s, 29, 33, 3);
+    c10_alias_r1_all2 { prop: C10, feat: "c10", tier: thorough, mode: leaf, unwind: 5, caps: "drop=1" } => |s| c10::bind_alias(s, 33, 37, 3);
+    c10_alias_ri_all0 { prop: C10, feat: "c10", tier: thorough, mode: leaf, unwind: 5, caps: "drop=1" } => |s| c10::bind_alias(s, 14, 16, 2);
+    c10_alias_ri_all1 { prop: C10, feat: "c10", tier: thorough, mode: leaf, unwind: 5, caps: "drop=1" } => |s| c10::bind_alias(s, 16, 18, 2);
+    c10_alias_ri_all2 { prop: C10, feat: "c10", tier: thorough, mode: leaf, unwind: 5, caps: "drop=1" } => |s| c10::bind_alias(s, 18, 20, 2);
+    c10_alias_ri_all3 { prop: C10, feat: "c10", tier: thorough, mode: leaf, unwind: 5, caps: "drop=1" } => |s| c10::bind_alias(s, 20, 21, 2);
 }
